@@ -10,7 +10,7 @@
  D5 after a fatal socket error / close nothing further is written: writes are unreachable in the
     disconnected / closed state, fatal branches disconnect/close and drop the queue
 """
-import ast
+import ast, re
 from .. import q, defs
 from ..model import AnalysisError, calls_in, call_name, norm, kwarg, walk_no_nested
 
@@ -144,7 +144,7 @@ def run (ctx):
   DM = 'self._dataForConnection'
   for c in calls_in(dsend.node):
     if isinstance(c.func, ast.Attribute) and q.mentions_attr(c.func.value, '_dataForConnection') and c.func.attr in q.MUTATORS:
-      good = c.func.attr == 'extend'
+      good = c.func.attr == 'extend' or (c.func.attr == 'setdefault' and len(c.args) == 2 and isinstance(c.args[1], ast.List) and not c.args[1].elts)        # setdefault(con, []): an empty queue for a new connection
       ctx.ob('R-AGREE', dsend, "queued data for a connection grows at the tail", good, norm(c)[:60] if good else "`%s` does not append at the tail: queued messages are reordered" % norm(c)[:60], (mod, c), 'D2')
   g = q.cfg_of(drun)
   qv = None
@@ -230,7 +230,7 @@ def run (ctx):
   okf = False
   for n in fatal:
     fs = q.fact_strs(g, n)
-    if any(f in ('e.errno != EAGAIN',) for f in fs): okf = True
+    if any(re.fullmatch(r'\w+\.errno != EAGAIN', f) for f in fs): okf = True
     c = [c for c in q.node_calls(n) if call_name(c) == 'disconnect'][0]
   ctx.ob('R-EFFECT', csend, "a fatal socket error disconnects the connection", okf, "disconnect under errno != EAGAIN" if okf else "fatal error path does not disconnect", csend, 'D5')
   # the fatal-error path disconnects with the event deferred; the close() that follows must then still announce the loss exactly
@@ -247,7 +247,7 @@ def run (ctx):
   for n in dfat:
     dl = [x for x in g.nodes if x.ast is not None and isinstance(x.ast, ast.Delete) and '_dataForConnection' in norm(x.ast) and g.dominates(n, x)]
     br = g.postdominates([x for x in g.nodes if x.kind == 'break'], n)
-    if dl and br and any(f == 'e.errno != EAGAIN' for f in q.fact_strs(g, n)): okd = True
+    if dl and br and any(re.fullmatch(r'\w+\.errno != EAGAIN', f) for f in q.fact_strs(g, n)): okd = True
   ctx.ob('R-EFFECT', drun, "a fatal error in the deferred sender disconnects, drops that connection's queue and stops writing", okd, "disconnect; del queue; break" if okd else "fatal branch of the deferred sender changed", drun, 'D5')
   g = q.cfg_of(sfast)
   direct = g.nodes_with_call(lambda c: call_name(c) == 'send' and norm(c.func.value) == 'self.socket')
@@ -268,7 +268,9 @@ def run (ctx):
     rv = q.returns_of(rts.node)
     ctx.ob('R-AGREE', rts, "ready-to-send means buffered bytes or connecting", bool(rv) and norm(rv[0].value) == 'len(self.send_buf) > 0 or self._connecting', norm(rv[0].value) if rv else "?", rts, 'D5')
   fat = g.nodes_with_call(lambda c: call_name(c) == 'close')
-  okc = any(any(f == 'e.errno != errno.EAGAIN' for f in q.fact_strs(g, n)) and g.postdominates([x for x in g.nodes if x.kind == 'return'], n) for n in fat)
+  import re as re_
+  fatal_fact = lambda f: re_.fullmatch(r'\w+\.errno != errno\.EAGAIN', f) is not None or re_.fullmatch(r'\w+\.errno not in \(errno\.EAGAIN, errno\.EWOULDBLOCK\)', f) is not None
+  okc = any(any(fatal_fact(f) for f in q.fact_strs(g, n)) and g.postdominates([x for x in g.nodes if x.kind == 'return'], n) for n in fat)
   ctx.ob('R-EFFECT', sfast, "a fatal error in send_fast closes the worker and queues nothing", okc, "close(); return under errno != EAGAIN" if okc else "fatal branch changed", sfast, 'D5')
   for f in (iclose, rclose):
     g = q.cfg_of(f)
@@ -286,7 +288,7 @@ def run (ctx):
              "breaks 'nothing further is written' and 'reported closed exactly once'" % late[0].text(50), (f.module, late[0].ast) if late else f, 'D5')
   g = q.cfg_of(dosend)
   fat = g.nodes_with_call(lambda c: call_name(c) == 'close')
-  okc = any(any(f == 'e.errno != errno.EAGAIN' for f in q.fact_strs(g, n)) for n in fat) and bool(g.nodes_with_call(lambda c: call_name(c) == 'discard'))
+  okc = any(any(fatal_fact(f) for f in q.fact_strs(g, n)) for n in fat) and bool(g.nodes_with_call(lambda c: call_name(c) == 'discard'))
   ctx.ob('R-EFFECT', dosend, "a fatal error while flushing closes the worker and removes it from the loop", okc, "close(); loop._workers.discard(self)" if okc else "fatal branch changed", dosend, 'D5')
   for f in (csend, dsend, drun, isend, dosend, sfast, rclose, iclose):
     for nm, node in defs.undefined_names(repo, f):
